@@ -64,7 +64,7 @@ def struct_rows(struct):
     return flat_leaves(struct)
 
 
-def build(system, rows, momentum, struct, route="zip", spelling=0, extra=False, regular=False, reverse_fields=False):
+def build(system, rows, momentum, struct, route="zip", spelling=0, extra=False, regular=False, reverse_fields=False, input_kind=None):
     """Returns an Awkward vector array with the given structure.
 
     route: 'zip' (vector.zip of per-coordinate columns; missing leaves become option-typed *fields*),
@@ -103,6 +103,16 @@ def build(system, rows, momentum, struct, route="zip", spelling=0, extra=False, 
             cols = dict(reversed(list(cols.items())))
         if regular:
             cols = {k: ak.to_regular(v, axis=1) for k, v in cols.items()}
+        if input_kind is not None:
+            # the *inputs* of the constructor in another physical layout (columns that come out of a selection, a file, ...);
+            # every column gets its own kind
+            kinds_ = [k_ for k_ in PHYSICAL if k_ in ("listarray-gaps", "sliced-offsets", "indexed-lists", "strided-leaves")]
+            start = kinds_.index(input_kind) if input_kind in kinds_ else 0
+            new_cols = {}
+            for ci, (k, v) in enumerate(cols.items()):
+                tw = relayout(v, kinds_[(start + ci) % len(kinds_)]) if isinstance(v, ak.Array) else None
+                new_cols[k] = tw if tw is not None else v
+            cols = new_cols
         if route == "zip":
             return vector.zip(cols, depth_limit=depth_limit)
         return ak.zip(cols, depth_limit=depth_limit, with_name=f"{flavor}{dim}D", behavior=None if vector._awkward_registered else vba.behavior)
@@ -119,6 +129,9 @@ def build(system, rows, momentum, struct, route="zip", spelling=0, extra=False, 
         arr = ak.Array(data)
         if regular:
             arr = ak.to_regular(arr, axis=1)
+        if input_kind is not None:
+            tw = relayout(arr, input_kind)
+            arr = tw if tw is not None else arr
         return vector.Array(arr)
     raise ValueError(route)
 
